@@ -321,3 +321,13 @@ v("C08", J21, "        for bufid in list(self._rcv_buffer):", "        for bufid
 v("C17", Q, "            bytes.extend(val.to_bytes(self.object_byte_size, byteorder=\"little\"))", "            bytes.extend(val.to_bytes(self.object_byte_size, byteorder=\"little\", signed=self.signed))", "break", "converter reads a field only reads set (seeded C17E)")
 v("C19", S, "            case ResponseState.SEND_ERROR:\n", "            case ResponseState.SEND_ERROR:\n                self._ca.unsubscribe(self.parse_dm14)\n", "break", "busy answer removes the running transaction's handler (seeded C19F)")
 v("C04", CA, "            or (self._device_address_state == ControllerApplication.State.NORMAL and src_address == self._device_address)", "            or (src_address == self._device_address)", "break", "state guard of the NORMAL arm dropped (seeded C04E)")
+
+# ---------------------------------------------------------------- added after the fifth seeded round
+v("C01", J21, "            max_num_packages = data[4] # Maximum number of segments that can be sent in response to one CTS.\n            buffer_hash = self._buffer_hash(src_address, dest_address)",
+  "            max_num_packages = data[4] # Maximum number of segments that can be sent in response to one CTS.\n            if (message_size < 9) or (num_packages < 2) or (num_packages >= 0xFF):\n                return\n            buffer_hash = self._buffer_hash(src_address, dest_address)", "break", "legal 255-packet RTS dropped silently (seeded C01H)")
+v("C01", J21, "            max_num_packages = data[4] # Maximum number of segments that can be sent in response to one CTS.\n            buffer_hash = self._buffer_hash(src_address, dest_address)",
+  "            max_num_packages = data[4] # Maximum number of segments that can be sent in response to one CTS.\n            if (message_size < 9) or (num_packages < 2) or (message_size > 1785):\n                return\n            buffer_hash = self._buffer_hash(src_address, dest_address)", "keep", "only illegal announcements dropped")
+v("C14", CA, "        src_address = mid.source_address\n\n        if (self.state != ControllerApplication.State.NORMAL) or", "        src_address = mid.source_address\n        if src_address >= j1939.ParameterGroupNumber.Address.NULL:\n            return\n\n        if (self.state != ControllerApplication.State.NORMAL) or", "break", "requests from the null address ignored (seeded C14H)")
+v("C14", CA, "        src_address = mid.source_address\n\n        if (self.state != ControllerApplication.State.NORMAL) or", "        src_address = mid.source_address\n        if src_address == j1939.ParameterGroupNumber.Address.GLOBAL:\n            return\n\n        if (self.state != ControllerApplication.State.NORMAL) or", "keep", "255 is not a requester")
+v("C04", CA, "                    self._device_address_announced += 1\n                    logger.info(\"Try the next address '%d'\", self._device_address_announced)", "                    nxt = self._device_address_announced + 1\n                    self._device_address_announced = nxt\n                    logger.info(\"Try the next address '%d'\", nxt)", "keep", "next address through a local, stored before the send")
+v("C12", ECU, "                    if next_wakeup > event['deadline']:\n                        next_wakeup = event['deadline']\n                else:", "                    if next_wakeup > event['deadline']:\n                        next_wakeup = event['deadline']\n                    break\n                else:", "break", "scan left at the first timer that is not due, list unordered")
